@@ -401,8 +401,15 @@ class Check(core.CheckBase):  # pylint: disable=too-many-public-methods
             variants.update([code.upper(), code.lower(), code + 'x', code[:-1], 'x' + code, code + '/', code.swapcase(),
                              code + code, code.replace('/', '-'), code + ' '])
         variants.update(['', 'zz', 'http/9.9', 'h9', 'spdy/', '\x00', 'h2\x00'])
-        for text in sorted(names | variants):
-            raw = text.encode('utf-8')
+        # names that are not valid UTF-8 and collapse to a registered name when the offending bytes are dropped or replaced
+        raw_variants = {}
+        for code in names:
+            raw = code.encode('utf-8')
+            for damaged in (raw + b'\xff', b'\xff' + raw, raw[:1] + b'\x80' + raw[1:], raw + b'\xc3', raw[:-1] + b'\xe2\x82' + raw[-1:],
+                            raw + b'\xed\xa0\x80', b'\xc0\xaf' + raw):
+                raw_variants[damaged.decode('latin-1') + ' (raw)'] = damaged
+        for text in sorted(names | variants) + sorted(raw_variants):
+            raw = raw_variants.get(text, None) or text.encode('utf-8')
             if not 1 <= len(raw) <= 255:
                 continue
             data = bytes([len(raw)]) + raw
